@@ -15,4 +15,5 @@ PROP = {'level': 'exploration',
  'assumptions': ['a CRC64/FNV collision between a faulted and the original payload has probability ~2^-63 per case and is not expected to occur'],
  'race_allow': [],
  'runs': [{'name': 'tooling', 'pkg': './tooling', 'run': '^TestVerifC14Tooling$', 'timeout': '20m', 'timeout_thorough': '60m'},
+          {'name': 'accum', 'pkg': './accum', 'run': '^TestVerifC14Accum$', 'timeout': '20m', 'timeout_thorough': '60m'},
           {'name': 'server', 'pkg': '.', 'run': '^TestVerifC14Server$', 'timeout': '20m', 'timeout_thorough': '60m'}]}
